@@ -580,6 +580,16 @@ def add_exotics(rng: random.Random, form: dict, kinds, p=0.5) -> list[str]:
                 _translated(rng, row, "label", langs, delim, ["Fruit", "Pick"])
                 row.setdefault("label", "Fruit") if not any(k.startswith("label") for k in row) else None
                 survey.append(row)
+            if rng.random() < 0.4:
+                # a second search() list holding a row identical to one of the first list's plain rows; only one of the two lists needs itext
+                lst2 = _fresh(form, "sm")
+                shared = {"name": "same0", "label": "Same"}
+                ch.append({"list_name": lst, **shared})
+                ch.append({"list_name": lst, "name": "pic1", "label": "Pic", "image": "p.jpg"})
+                ch.append({"list_name": lst2, **shared})
+                ch.append({"list_name": lst2, "name": "other1", "label": "Other"})
+                row2 = {"type": f"select_one {lst2}", "name": _fresh(form, "srch2_"), "appearance": "search('veg')", "label": "Veg"}
+                survey.append(row2)
         elif kind == "legacy_hint":
             row = {"type": rng.choice(LEGACY_HINT_TYPES), "name": _fresh(form, "lg")}
             _translated(rng, row, "label", langs, delim, ["Days", "Phone"])
